@@ -260,7 +260,13 @@ fn lock_contend(dir: &str, logfile: &str, threads: usize, rounds: usize, seed: u
                                 let t3: Vec<&str> = t2.iter().map(|s| s.as_str()).collect();
                                 let (res, _) = exec_op(&mut s, &dir, &t3);
                                 shim::lock_log(&format!("h append {}", res));
-                                if r % 2 == 0 {
+                                if idx >= 4 && rnd() % 2 == 0 {
+                                    // purge so that old chunk files are removed
+                                    let up = (idx - 2).to_string();
+                                    let (res, _) = exec_op(&mut s, &dir, &["P", "1", &up]);
+                                    shim::lock_log(&format!("h purge {}", res));
+                                }
+                                if r % 2 == 0 || idx >= 4 {
                                     let (res, _) = exec_op(&mut s, &dir, &["F", "1"]);
                                     shim::lock_log(&format!("h flush {}", res));
                                 }
